@@ -500,7 +500,12 @@ def timezone_name(dt, version=LATEST_VER):
         return 'UTC'
 
     for olson_name, haystack_name in list(tz_rmap.items()):
-        if pytz.timezone(olson_name).utcoffset(dt_notz) == offset:
-            return haystack_name
+        try:
+            if pytz.timezone(olson_name).utcoffset(dt_notz) == offset:
+                return haystack_name
+        except pytz.InvalidTimeError:
+            # The local time is ambiguous or does not exist in this
+            # candidate zone, so it cannot be the zone we are looking for.
+            continue
 
     raise ValueError('Unable to get timezone of %r' % dt)
